@@ -9,6 +9,7 @@ ID = "C04"
 TITLE = "Point lookup returns exactly the lowest-indexed intersecting cell"
 MC = {"quick": [("MC_Cells", "MC_C04.cfg", 8)], "thorough": [("MC_Cells", "MC_C04_thorough.cfg", 16)]}
 TRACE = ("Trace_Cells", "Trace_Cells.cfg")
+REPEAT_EVENTS = 6      # see core.check
 THOROUGH_EXTRA_SEEDS = 2
 REQUIRED = ["held-memory", "held-file", "held-dask", "held-emsopen", "Lookup", "SelectPoint", "holes", "hit", "miss", "tie", "vertex-tie", "beyond-one-leaf",
             "cf1d", "cf2d", "shoc_simple", "shoc_standard", "arakawa", "ugrid"]
